@@ -22,4 +22,4 @@ def run_case(acc, rnd, tier, case):
     modes = META[PID]['modes']
     mode, _, kw = rnd.choices(modes, weights=[m[1] for m in modes])[0]
     acc.count('mode_' + mode)
-    execmon.run_case(acc, rnd, tier, case, mode, PID, gen_kw=kw)
+    execmon.run_case(acc, rnd, tier, case, mode, PID, gen_kw=dict(kw or {}, p_event_guard=0.5))
